@@ -1,6 +1,7 @@
 """C03 - the schedule is causal: state at step k depends only on input up to step k."""
 import glob
 import json
+import re
 import os
 
 from hypothesis import strategies as st
@@ -222,6 +223,7 @@ class C03(Check):
         base = P.call("sched_states", text=t["T0-truncated"])        # LibError => generator problem (rejected)
         if base["nsteps"] != K + 1:
             return {"rule": "number of report steps of the truncated schedule", "detail": [base["nsteps"], K + 1], "key": None}
+        keyed = None
         for who in ("T1-original", "T2-other-tail", "T3-edited-tail"):
             if who not in t:
                 continue
@@ -236,5 +238,15 @@ class C03(Check):
             r = self.compare(base["dumps"], o["dumps"], K, who)
             if r:
                 r["detail"]["texts"] = {"T0": t["T0-truncated"][len(MG.prelude(case["unit"])):], who: t[who][len(MG.prelude(case["unit"])):]}
+                # recorded finding: the ALQ type of a VFPPROD table with a defaulted / blank ALQ item is GRAT (31) if
+                # LIFTOPT occurs ANYWHERE in the SCHEDULE section (ScheduleStatic::gaslift_opt_active), UNDEF (37)
+                # otherwise - a later LIFTOPT changes the table of an earlier report step.  Narrow: exactly that member
+                # value pair, a VFPPROD before the cut, LIFTOPT on one side only.
+                lift = [bool(re.search(r"(^|\n)LIFTOPT\n", x)) for x in (t["T0-truncated"], t[who])]
+                if {r["detail"].get("truncated"), r["detail"].get(who)} == {31, 37} and lift[0] != lift[1] \
+                        and "VFPPROD\n" in t["T0-truncated"]:
+                    r["key"] = "vfpprod-default-alq-type-follows-LIFTOPT-anywhere"
+                    keyed = keyed or r
+                    continue
                 return r
-        return None
+        return keyed
